@@ -131,3 +131,8 @@ Definition mcs (n:nat) (nf:dict Z scnf) (x:wcnf) (ignore:list Z) : list (list Z)
 (* min(...) of a non-empty sequence of integers; ValueError on an empty one *)
 Definition py_min {R L} (l:list Z) : ctl R L Z :=
   match l with [] => Raise | x::r => Next (fold_left Z.min r x) end.
+
+(* PreOCF.symbolize_bitvec(world): one literal per atom of the signature *)
+Fixpoint world_lits_from (i:nat) (w:world) : list form :=
+  match w with [] => [] | b::r => (if b then FVar i else FNot (FVar i)) :: world_lits_from (S i) r end.
+Definition world_lits (w:world) : list form := world_lits_from 0 w.
